@@ -4,5 +4,6 @@ CONSTANTS
   NCols = 2
   Pinned = FALSE
   Emit = FALSE
+  SmallAlpha = FALSE
 INVARIANTS Refines EmitInv
 CHECK_DEADLOCK FALSE
